@@ -14,6 +14,7 @@ type deferSite struct {
 	recv  Value // evaluated receiver (for x.f().g(): value of x.f())
 	hasRV bool
 	args  []Value
+	argExprs []ast.Expr
 	fn    *types.Func
 	pkg   *Pkg
 }
@@ -47,6 +48,11 @@ type Env struct {
 	mayArmed  map[*deferSite]bool
 	postFn    func()
 	pathTag   string
+	tail      bool
+	noSplit   bool
+	fnPkg     string // package of the function under verification (invariants of its types are concrete)
+	forceConcreteInv bool
+	unwindChains map[string]*Block
 	resultObs []types.Object
 	resultVs  []string // base names of result variables
 	defers    []*deferSite
@@ -137,6 +143,14 @@ func (e *Env) reassumeConsts() {
 
 // assert emits a named obligation.
 func (e *Env) assert(t *Term, kind, detail string, tags []string, descr string, pos string) {
+	// conjunctions are proved conjunct by conjunct (smaller queries, precise diagnostics)
+	if false && t.Op == "and" && len(t.Args) > 1 && !e.noSplit {
+		for i, c := range t.Args {
+			e.assert(c, kind, fmt.Sprintf("%s.c%d", detail, i+1), tags, descr+" [conjunct "+fmt.Sprint(i+1)+": "+abbrev(c.String())+"]", pos)
+			e.assume(c)
+		}
+		return
+	}
 	name := e.short + "#" + kind
 	if detail != "" {
 		name += "." + detail
@@ -217,7 +231,7 @@ func (e *Env) localName(obj types.Object) string {
 	for _, c := range compsOf(k) {
 		e.declare(n+c.Suf, c.S)
 	}
-	if obj.Name() != "_" {
+	if obj.Name() != "_" && e.inline == 0 {
 		e.specLocals[obj.Name()] = obj
 	}
 	return n
@@ -641,4 +655,14 @@ func (e *Env) assumeTyping(v Value) {
 			})
 		}
 	})
+}
+
+
+func abbrev(s string) string {
+	s = strings.ReplaceAll(s, "H$buffer.Buffer$", "")
+	s = strings.ReplaceAll(s, "H$rfmt.", "")
+	if len(s) > 160 {
+		return s[:160] + "..."
+	}
+	return s
 }
